@@ -176,3 +176,241 @@ def lattice_cases(rng, max_len, palette, n_random, fault_kinds=False):
                 c['scripts'] = {'1': {'passes': value_script([[palette[i]] for i in seq], [0])}}
                 cases.append(c)
     return cases
+
+
+# =========================================================================== multi-period solves (C05; C06 'skip moves on')
+# span types: how the span object is searched by _locate_period_in_span -> the model's lookup kind
+#   0 = span.index (list / range)   1 = the fallback (NumPy array)   2 = pandas get_loc (answers recorded from the run)
+SPAN_KIND = {'range': 0, 'list_str': 0, 'list_dup': 0, 'np_int': 1, 'np_str': 1, 'np_dup': 1,
+             'pd_int': 2, 'pd_str': 2, 'period_q': 2, 'pd_dup': 2}
+SPAN_NODUP = ('range', 'list_str', 'np_int', 'np_str', 'pd_int', 'pd_str', 'period_q')
+
+
+def make_span(span_type, n):
+    import numpy as np
+    strs = ['p%d' % i for i in range(n)]
+    dups = ['p%d' % (0 if i == 1 else i) for i in range(n)]          # label of period 1 repeats period 0
+    if span_type == 'range':
+        return range(2000, 2000 + n)
+    if span_type == 'list_str':
+        return strs
+    if span_type == 'list_dup':
+        return dups
+    if span_type == 'np_int':
+        return np.arange(2000, 2000 + n)
+    if span_type == 'np_str':
+        return np.array(strs, dtype=str) if n else np.array([], dtype=str)
+    if span_type == 'np_dup':
+        return np.array(dups, dtype=str) if n else np.array([], dtype=str)
+    import pandas as pd
+    if span_type == 'pd_int':
+        return pd.Index(list(range(2000, 2000 + n)))
+    if span_type == 'pd_str':
+        return pd.Index(strs, dtype=object)
+    if span_type == 'pd_dup':
+        return pd.Index(dups, dtype=object)
+    if span_type == 'period_q':
+        return pd.period_range('2000Q1', periods=n, freq='Q')
+    raise AssertionError(span_type)
+
+
+def label_of(span_type, span, n, spec):
+    """spec: None | ['pos', i] | ['str', i] (PeriodIndex: the period written as a string) | ['unknown'] | ['partial']"""
+    if spec is None:
+        return None
+    k = spec[0]
+    if k == 'pos':
+        return span[spec[1]]
+    if k == 'str':
+        return str(span[spec[1]])
+    if k == 'partial' and span_type == 'period_q':
+        return '2000'                                  # a year against a quarterly index: get_loc returns a slice
+    if span_type in ('range', 'np_int', 'pd_int'):
+        return 1999 if k == 'unknown' else -7
+    if span_type == 'period_q':
+        import pandas as pd
+        return pd.Period('1990Q1', freq='Q')
+    return 'zz' if k == 'unknown' else 'yy'
+
+
+def span_ids(span, n):
+    """label id of every position = first position holding an equal label"""
+    ids = []
+    for i in range(n):
+        j = 0
+        while not bool(span[j] == span[i]):
+            j += 1
+        ids.append(j)
+    return ids
+
+
+def spec_id(case, ids, spec):
+    n = case['n']
+    if spec is None:
+        return None
+    if spec[0] == 'pos':
+        return ids[spec[1]]
+    if spec[0] == 'str':
+        return n + 10 + spec[1]
+    return n + 5 if spec[0] == 'unknown' else n + 6
+
+
+def solve_kwargs(o):
+    return dict(min_iter=o['min_iter'], max_iter=o['max_iter'], tol=lib.unhex(o['tol']), offset=o['offset'],
+                failures=o['failures'], errors=o['errors'], catch_first_error=o['catch_first_error'])
+
+
+def observe_state(m, nvars):
+    return {
+        'vals': [[lib.fhex(x) for x in m.__dict__['_V%d' % i]] for i in range(nvars)],
+        'status': [str(x) for x in m.__dict__['_status']],
+        'iters': [int(x) for x in m.__dict__['_iterations']],
+        'log': m.__dict__['_evlog'],
+        'passvecs': [[lib.fhex(x) for x in v] for v in m.__dict__['_passvecs']],
+        'raised': m.__dict__['_raised'],
+    }
+
+
+def expected_range(case):
+    """What the property says start/end denote, computed from the case alone (never from fsic):
+    ('range', a, b) | ('keyerror',) | ('empty',) | None (outside the statement: repeated labels, span too short for lags/leads)."""
+    n = case['n']
+    if case['span_type'] not in SPAN_NODUP:
+        return None
+
+    def one(spec, dflt):
+        if spec is None:
+            return dflt if 0 <= dflt < n else None
+        if spec[0] in ('pos', 'str'):
+            return spec[1]
+        return 'bad'
+    if n == 0:
+        bad = [s for s in (case['start'], case['end']) if s is not None]
+        return ('keyerror',) if bad else ('empty',)
+    a = one(case['start'], case.get('lags', 0))
+    b = one(case['end'], n - 1 - case.get('leads', 0))
+    if a == 'bad' or b == 'bad':
+        return ('keyerror',)
+    if a is None or b is None:
+        return None
+    return ('range', a, b)
+
+
+def impl_solve(case):
+    """solve(start=, end=) / solve_period(label) on a scripted model over the requested span type, and the same work done by
+    a twin instance through a plain loop of solve_t over the positions the property names."""
+    import fsic
+    import scripted
+    n = case['n']
+    cls = scripted.make_class(fsic.BaseModel, case['nvars'], case['check'], case['endo'])
+    span = make_span(case['span_type'], n)
+    kw = solve_kwargs(case['opts'])
+
+    def fresh():
+        return scripted.instantiate(cls, make_span(case['span_type'], n), case['vals'], case['status'], case['iters'], case['scripts'],
+                                    lags=case.get('lags', 0), leads=case.get('leads', 0))
+    ids = span_ids(span, n)
+
+    def lab_id(lab):
+        for j in range(n):
+            if bool(span[j] == lab):
+                return ids[j]
+        return -1
+    m = fresh()
+    start = label_of(case['span_type'], span, n, case['start'])
+    end = label_of(case['span_type'], span, n, case['end'])
+    try:
+        if case['entry'] == 'solve_period':
+            out = ['ret', bool(m.solve_period(start, **kw))]
+        else:
+            labels, indexes, solved = m.solve(start=start, end=end, **kw)
+            out = ['ret', [lab_id(x) if x is not None else None for x in labels], [int(x) if x is not None else None for x in indexes],
+                   [bool(x) if x is not None else None for x in solved], [type(x).__name__ for x in indexes]]
+    except Exception as e:
+        c = e.__cause__
+        out = ['raise', type(e).__name__, type(c).__name__ if c is not None else None]
+    obs = {'out': out}
+    obs.update(observe_state(m, case['nvars']))
+    # the span lookup's answers (pandas spans: the model's `locate` oracle is this table; other spans: checked against it)
+    loc = {}
+    probe = fresh()
+    for key, lab in [(ids[i], span[i]) for i in range(n)] + [(spec_id(case, ids, s), label_of(case['span_type'], span, n, s))
+                                                            for s in (case['start'], case['end']) if s is not None]:
+        try:
+            r = probe._locate_period_in_span(lab)
+            loc[str(key)] = ['int', int(r)] if type(r) is int else ['other', type(r).__name__]
+        except Exception as e:
+            loc[str(key)] = ['fail', type(e).__name__]
+    obs['loc'] = loc
+    obs['ids'] = ids
+    # the twin: a loop of solve_t over the positions the statement names
+    exp = expected_range(case)
+    if exp is not None and exp[0] == 'range':
+        tw = fresh()
+        flags, tout = [], None
+        rng_ = [exp[1]] if case['entry'] == 'solve_period' else range(exp[1], exp[2] + 1)
+        for t in rng_:
+            try:
+                flags.append(bool(tw.solve_t(t, **kw)))
+            except Exception as e:
+                c = e.__cause__
+                tout = ['raise', type(e).__name__, type(c).__name__ if c is not None else None, t]
+                break
+        twin = {'out': tout if tout is not None else ['ret', flags]}
+        twin.update(observe_state(tw, case['nvars']))
+        obs['twin'] = twin
+    return obs
+
+
+def c_locres(x):
+    if x[0] == 'int':
+        return '(LInt %s)' % lib.cZ(x[1])
+    return 'LOther' if x[0] == 'other' else 'LFail'
+
+
+def c_scase(case, obs):
+    import scripted
+    ids = obs['ids']
+    opt = lambda s: 'None' if s is None else '(Some %s)' % lib.cZ(spec_id(case, ids, s))
+    out = obs['out']
+    if out[0] == 'raise':
+        xout = c_outcome(out, scripted.CAUSE_TAG)
+    elif case['entry'] == 'solve_period':
+        xout = '(Ret (1%%nat, [(%s, 0, %s)]))' % (lib.cZ(spec_id(case, ids, case['start'])), lib.cbool(out[1]))
+    else:
+        vis = ['(%s, %s, %s)' % (lib.cZ(l), lib.cZ(t), lib.cbool(b)) for l, t, b in zip(out[1], out[2], out[3]) if t is not None]
+        xout = '(Ret (%d%%nat, %s))' % (len(out[1]), lib.clist(vis))
+    tbl = lib.clist('(%s, %s)' % (lib.cZ(int(k)), c_locres(v)) for k, v in sorted(obs['loc'].items(), key=lambda kv: int(kv[0])))
+    return '(mkSCase %s %s %s %d%%nat %s %s %d%%nat %s %s %s %s %s)' % (
+        c_scripts(case['scripts']), c_desc(case), c_opts(case['opts']), SPAN_KIND[case['span_type']],
+        lib.clist(lib.cZ(i) for i in ids), tbl, 1 if case['entry'] == 'solve_period' else 0,
+        opt(case['start']), opt(case['end']),
+        c_state(case['vals'], case['status'], case['iters'], []),
+        c_state(obs['vals'], obs['status'], obs['iters'], obs['log']), xout)
+
+
+PREAMBLE_ALL = '''From Coq Require Import PrimFloat ZArith List Bool.
+Import ListNotations.
+Require Import Fsic.Base.PyBase Fsic.Solver.Solver Fsic.Solver.SolverF Fsic.Solver.SolveAll Fsic.Solver.SolveAllF.
+Open Scope float_scope. Open Scope Z_scope.
+'''
+
+
+def correspond_solve(cases, obs, tag):
+    items = [c_scase(c, o) for c, o in zip(cases, obs)]
+    return lib.run_coq_cases(tag, PREAMBLE_ALL, items, 'bad_indices check_scase 0%nat cs')
+
+
+def explain_solve(case, obs):
+    return lib.coq_eval('explain_all', PREAMBLE_ALL, 'run_scase %s' % c_scase(case, obs))[-3000:]
+
+
+def solve_case(span_type='range', n=4, start=None, end=None, entry='solve', nvars=2, check=(0,), endo=(0,), lags=0, leads=0, **opts):
+    c = base_case(nvars=nvars, check=check, endo=endo, n=n, t=0, **opts)
+    del c['t']
+    c.update({'span_type': span_type, 'start': start, 'end': end, 'entry': entry, 'lags': lags, 'leads': leads})
+    return c
+
+
+def settle_passes(var, values):
+    return [[['set', var, lib.fhex(v)]] for v in values]
